@@ -347,13 +347,54 @@ P18_UserNameBound(w, ev, w2, h, r) ==
 P00_ReplayAgrees(w, ev, w2, h, r) == (Call(ev) /\ "mcres" \in DOMAIN ev.x) => ev.res = ev.x.mcres
 
 \* full agreement with the reference model ("drift" when false; never an alarm by itself)
+\* ---------------------------------------------------------------------------
+\* Log entries (specification coverage beyond the listed properties: compared as part of Conforms, i.e. reported as drift, never a verdict).
+\* Every successful token operation reports what it did: identifier = function name, address = caller, topics = token id, then the amount
+\* (fungible family) or the nonce (NFT family), then the other party's address where there is one (for ESDTNFTCreate: the stored entry).
+LogE(id, addr, tok, num, third) == [id |-> id, addr |-> addr, tok |-> tok, num |-> num, third |-> third]
+ValueLogFns == {"ESDTTransfer", "ESDTBurn", "ESDTLocalBurn", "ESDTLocalMint", "ESDTWipe"}
+AddrHex(a) == IF a \in DOMAIN cfg.addrs THEN cfg.addrs[a].hex ELSE "?"
+ObsLog(l) ==
+  LET nt == Len(l.topics) IN
+  IF nt < 2 \/ nt > 3 \/ l.data # "" THEN LogE(l.id, l.addr, "?", -99, "?") ELSE
+  LogE(l.id, l.addr, l.topics[1].h, IF l.id \in ValueLogFns THEN l.topics[2].q ELSE l.topics[2].n,
+       IF nt = 3 THEN (IF l.id = "ESDTNFTCreate" THEN "data" ELSE l.topics[3].h) ELSE "")
+ObsLogs(ev) == [i \in 1..Len(ev.logs) |-> ObsLog(ev.logs[i])]
+ExpLogs(w, ev) ==
+  LET f == ev.fn
+      n == NArgs(ev) IN
+  CASE f = "ESDTTransfer" /\ n >= 2 -> <<LogE(f, ev.caller, Arg(ev,1).h, Arg(ev,2).q, IF ev.dst THEN AddrHex(ev.rcpt) ELSE "")>>
+    [] f \in {"ESDTBurn", "ESDTLocalBurn", "ESDTLocalMint"} /\ n >= 2 -> <<LogE(f, ev.caller, Arg(ev,1).h, Arg(ev,2).q, "")>>
+    [] f = "ESDTWipe" /\ n >= 1 -> <<LogE(f, ev.caller, Arg(ev,1).h, 0, AddrHex(ev.rcpt))>>
+    [] f = "ESDTNFTTransfer" /\ n >= 4 ->
+         IF ev.caller = ev.rcpt THEN <<LogE(f, ev.caller, Arg(ev,1).h, Arg(ev,2).n, Arg(ev,4).h)>>
+         ELSE <<LogE(f, ev.caller, Arg(ev,1).h, IF Arg(ev,4).he /\ Arg(ev,4).e.hm THEN Arg(ev,4).e.meta.nonce ELSE -98, AddrHex(ev.rcpt))>>
+    [] f = "MultiESDTNFTTransfer" /\ n >= 4 ->
+         IF ev.caller = ev.rcpt THEN
+            LET k == Arg(ev,2).n IN
+            IF k < 1 \/ n < 3 * k + 2 THEN <<LogE("?", "?", "?", -97, "?")>>
+            ELSE [i \in 1..k |-> LogE(f, ev.caller, Arg(ev, 3 * i).h, Arg(ev, 3 * i + 1).n, Arg(ev,1).h)]
+         ELSE
+            LET k == Arg(ev,1).n IN
+            IF k < 1 \/ n < 3 * k + 1 THEN <<LogE("?", "?", "?", -97, "?")>>
+            ELSE [i \in 1..k |-> LogE(f, ev.caller, Arg(ev, 3 * i - 1).h, Arg(ev, 3 * i).n, AddrHex(ev.rcpt))]
+    [] f = "ESDTNFTCreate" /\ n >= 1 /\ ev.caller \in Accts(w) -> <<LogE(f, ev.caller, Arg(ev,1).h, CtrOf(w.acct[ev.caller], Arg(ev,1).h) + 1, "data")>>
+    [] f \in {"ESDTNFTAddQuantity", "ESDTNFTBurn", "ESDTNFTAddURI", "ESDTNFTUpdateAttributes"} /\ n >= 2 -> <<LogE(f, ev.caller, Arg(ev,1).h, Arg(ev,2).n, "")>>
+    [] OTHER -> <<>>
+\* the entry shown in the create log is the entry that was stored
+CreateLogEntry(ev, w2) ==
+  (ev.fn = "ESDTNFTCreate" /\ Len(ev.logs) = 1 /\ Len(ev.logs[1].topics) = 3 /\ ev.caller \in Accts(w2)) =>
+     LET t == ev.logs[1].topics IN
+     t[3].he /\ t[2].n >= 0 /\ (t[1].h \o NBHex(t[2].n)) \in DOMAIN w2.acct[ev.caller].esdt /\ t[3].e = w2.acct[ev.caller].esdt[t[1].h \o NBHex(t[2].n)]
+LogsOK(w, ev, w2) == (Call(ev) /\ IsOk(ev)) => (ObsLogs(ev) = ExpLogs(w, ev) /\ CreateLogEntry(ev, w2))
+
 DiffParts(w, ev, w2, r) ==
   (IF IsOk(ev) # r.ok THEN {<<"res">>} ELSE {}) \cup (IF w2.acct # r.w.acct THEN {<<"acct">>} ELSE {}) \cup (IF w2.paused # r.w.paused THEN {<<"paused">>} ELSE {})
   \cup (IF SemMsgs(w2.msgs) # SemMsgs(r.w.msgs) THEN {<<"msgs">>} ELSE {}) \cup (IF w2.nextId # r.w.nextId THEN {<<"nextId">>} ELSE {})
   \cup (IF IsOk(ev) /\ ev.gascls = "" /\ ev.gr # r.gr THEN {<<"gr", ev.gr, r.gr>>} ELSE {}) \cup (IF IsOk(ev) /\ NoIds(ev.out) # NoIds(r.out) THEN {<<"out">>} ELSE {})
-  \cup (IF IsOk(ev) /\ ev.ret # r.ret THEN {<<"ret">>} ELSE {})
+  \cup (IF IsOk(ev) /\ ev.ret # r.ret THEN {<<"ret">>} ELSE {}) \cup (IF ~LogsOK(w, ev, w2) THEN {<<"logs">>} ELSE {})
   \cup {<<"acct", a>> : a \in {x \in DOMAIN w2.acct : x \in DOMAIN r.w.acct /\ w2.acct[x] # r.w.acct[x]}}
 Conforms(w, ev, w2, h, r) ==
-  Call(ev) => (r.unk \/ ((IsOk(ev) = r.ok) /\ SemWorld(w2) = SemWorld(r.w) /\ (IsOk(ev) => ((ev.gascls # "" \/ ev.gr = r.gr) /\ NoIds(ev.out) = NoIds(r.out) /\ ev.ret = r.ret))))
+  Call(ev) => (LogsOK(w, ev, w2) /\ (r.unk \/ ((IsOk(ev) = r.ok) /\ SemWorld(w2) = SemWorld(r.w) /\ (IsOk(ev) => ((ev.gascls # "" \/ ev.gr = r.gr) /\ NoIds(ev.out) = NoIds(r.out) /\ ev.ret = r.ret)))))
 
 =============================================================================
